@@ -291,7 +291,8 @@ pub fn run17(em: &mut Emitter, rng: &mut Rng, thorough: bool) {
             // same content, different segmentation
             let c = os_content(&a); let k = rng.below(c.len() as u64 + 1) as usize;
             Os::Cons(rng.bool(), vec![Os::Prim(c[..k].to_vec()), Os::Prim(vec![]), Os::Prim(c[k..].to_vec())]) };
-        let (mut da, mut db) = (Vec::new(), Vec::new()); os_encode(&a, 0x04, &mut da); os_encode(&b, 0x04, &mut db);
+        let (mut da, mut db) = (Vec::new(), Vec::new());
+        if rng.bool() { os_encode(&a, 0x04, &mut da); os_encode(&b, 0x04, &mut db); } else { os_encode_forms(&a, 0x04, &mut da, rng); os_encode_forms(&b, 0x04, &mut db, rng); }
         cmp_case(em, &da, &db, &os_content(&a), &os_content(&b));
         slice_case(em, &da, &os_content(&a), &os_content(&b));
     }
